@@ -1,6 +1,8 @@
 """C12 - bindings are lexical and transparent; pipes and later selects keep their inputs"""
 from ..scen_ctx import contexts
+from ..scen_misc import pipe
 
 
 def run(ctx):
     contexts(ctx)
+    pipe(ctx)
